@@ -19,6 +19,15 @@
   Messages are plain strings appended by `warn` (type `List Str`): a message can never be an exception —
   this is by construction of the model and needs no theorem.
 
+  The second half of the file removes the restrictions of the first half and composes everything:
+
+  * `w:numStyleLink` chains: `c05_noStyleLinks` is replaced by the necessary and sufficient `c05_linksAcyclic`
+    (links may dangle, only cycles are excluded): `C05_findLevel_total_iff`, `C05_readElem_errors_acyclic`, …;
+  * deleted paragraph marks: fuel for ALL trees (`C05_fuel_enough_all`), balanced fields measured in READING
+    order (`C05_balanced_no_index`), reader totality `C05_readAll_total` (no `_partial`);
+  * the API: `C05_api_total`, `C05_rawText_total` on the decidable domain `c05_inDomain`, with an example in
+    the domain and, for each clause, a variant outside it on which the model fails.
+
   Helper definitions and lemmas: Proofs/C05_*.lean.
 -/
 import Proofs.C05_ReadSpec
@@ -26,6 +35,15 @@ import Proofs.C05_Fuel
 import Proofs.C05_BalancedSpec
 import Proofs.C05_FuelEnough
 import Proofs.C05_Api
+import Proofs.C05_Links
+import Proofs.C05_ReadSpecG
+import Proofs.C05_FuelAll
+import Proofs.C05_RBalanced
+import Proofs.C05_RUnbalanced
+import Proofs.C05_FuelErr
+import Proofs.C05_ApiTotal
+import Proofs.C05_ViewNec
+import Proofs.C05_Example
 namespace Mammoth
 
 /-! ### the reader -/
@@ -238,5 +256,450 @@ example : c05_docOk { archive := [(S!"word/media/a.png", [1, 2])] }
       notes := [⟨S!"footnote", S!"1", []⟩] } = true := by decide
 /-- … and violated by a dangling note reference -/
 example : c05_docOk {} { children := [.noteRef S!"footnote" S!"9"] } = false := by decide
+
+/-! ## The reader, in full: `w:numStyleLink` chains and deleted paragraph marks
+
+The theorems above exclude `w:numStyleLink` (`c05_noStyleLinks`) and deleted paragraph marks (`c05_noDel`,
+`st.deleted = []`).  The theorems below remove both restrictions:
+
+* `c05_noStyleLinks` is replaced by `c05_linksAcyclic` (Proofs/C05_Links.lean): every `w:numStyleLink` chain
+  starting at a defined numId ends — links may DANGLE anywhere, only cycles are excluded.  This is necessary
+  and sufficient for `find_level` to return (`C05_findLevel_total_iff`); a cycle is a `RecursionError` whatever
+  the fuel (`C05_findLevel_cycle_fails`).
+* fuel: `xmlSize n + xmlSizeL st.deleted ≤ fuel` is enough for EVERY tree (`C05_fuel_enough_all`).
+* balanced fields are measured IN READING ORDER (`c05_rdepth`, Proofs/C05_RDepth.lean), which follows the
+  deferred content of deleted paragraphs into the paragraph that reads it (`C05_balanced_no_index`).
+* `C05_readAll_total`: statically well-formed + balanced in reading order + fuel ≥ size ⟹ the body is read.
+-/
+
+/-! ### numbering-style links -/
+
+/-- `find_level` (with the fuel the reader gives it) returns normally for every numId and level a
+    paragraph may carry IF AND ONLY IF the `w:numStyleLink` chains of the environment are acyclic. -/
+theorem C05_findLevel_total_iff (env : REnv) :
+    c05_linksAcyclic env = true ↔
+    ∀ numId lvl : Str, ∃ r, findLevel env.numbering (c05_linkFuel env) (some numId) lvl = .ok r :=
+  c05_linksAcyclic_iff env
+
+/-- when the links are not acyclic, some numId makes `find_level` fail with `RecursionError` for EVERY fuel:
+    the failure is a cycle in the document, not an artefact of the model's fuel -/
+theorem C05_findLevel_cycle_fails (env : REnv) (hl : c05_linksAcyclic env = false) :
+    ∃ numId : Str, ∀ (f : Nat) (lvl : Str), findLevel env.numbering f (some numId) lvl = .error .recursion :=
+  c05_cyclic_fails env hl
+
+/-- the old hypothesis implies the new one -/
+theorem C05_noStyleLinks_acyclic (env : REnv) (hn : c05_noStyleLinks env = true) : c05_linksAcyclic env = true :=
+  c05_linksAcyclic_of_noStyleLinks env hn
+
+/-- `C05_readElem_errors` with "no `w:numStyleLink`" weakened to "acyclic `w:numStyleLink` chains": on
+    statically well-formed input (and statically well-formed deferred content) reading an element — with ANY
+    fuel, from ANY reader state — can only fail by running out of model fuel or by popping the empty
+    complex-field stack. -/
+theorem C05_readElem_errors_acyclic (env : REnv) (hl : c05_linksAcyclic env = true) (fuel : Nat) (st : RState)
+    (n : XmlNode) (e : Err) (hs : c05_static env n = true) (hd : c05_staticL env st.deleted = true)
+    (h : readElem env fuel st n = .error e) : e = .fuel ∨ ∃ w, e = .index w :=
+  (c05_readElem_specG env (c05_numOk_of_acyclic env hl) fuel st n hs hd).err e h
+
+/-- the deferred content stays statically well-formed (acyclic version of `C05_readElem_static_preserved`) -/
+theorem C05_readElem_static_preserved_acyclic (env : REnv) (hl : c05_linksAcyclic env = true) (fuel : Nat)
+    (st : RState) (n : XmlNode) (r : ReadResult) (st' : RState) (hs : c05_static env n = true)
+    (hd : c05_staticL env st.deleted = true) (h : readElem env fuel st n = .ok (r, st')) :
+    c05_staticL env st'.deleted = true :=
+  (c05_readElem_specG env (c05_numOk_of_acyclic env hl) fuel st n hs hd).ok _ h
+
+/-- the same for a list of nodes (`body_reader.read_all`) -/
+theorem C05_readAll_errors_acyclic (env : REnv) (hl : c05_linksAcyclic env = true) (fuel : Nat) (st : RState)
+    (ns : List XmlNode) (e : Err) (hs : c05_staticL env ns = true) (hd : c05_staticL env st.deleted = true)
+    (h : readAll env fuel st ns = .error e) : e = .fuel ∨ ∃ w, e = .index w :=
+  (c05_readAllWith_spec env _ (c05_readElem_specG env (c05_numOk_of_acyclic env hl) fuel) ns st hs hd).err e h
+
+/-- … and from the fresh reader state -/
+theorem C05_readAll_fresh_errors_acyclic (env : REnv) (hl : c05_linksAcyclic env = true) (fuel : Nat)
+    (ns : List XmlNode) (e : Err) (hs : c05_staticL env ns = true)
+    (h : readAll env fuel {} ns = .error e) : e = .fuel ∨ ∃ w, e = .index w :=
+  C05_readAll_errors_acyclic env hl fuel {} ns e hs rfl h
+
+/-! ### fuel, for all trees -/
+
+/-- FUEL IS ENOUGH, for EVERY tree and EVERY reader state (no hypothesis on deleted paragraph marks, none on
+    well-formedness): with fuel at least the size of the node plus the size of the deferred content, the
+    reader never runs out of fuel. -/
+theorem C05_fuel_enough_all (env : REnv) (fuel : Nat) (st : RState) (n : XmlNode) (e : Err)
+    (hf : xmlSize n + xmlSizeL st.deleted ≤ fuel) (h : readElem env fuel st n = .error e) : e ≠ .fuel :=
+  (c05_readElem_nofuelA env fuel st n hf).err e h
+
+/-- … and what is deferred afterwards is bounded by the same sum (the invariant that makes the bound
+    inductive along a list of siblings) -/
+theorem C05_fuel_enough_all_deferred (env : REnv) (fuel : Nat) (st st' : RState) (n : XmlNode) (r : ReadResult)
+    (hf : xmlSize n + xmlSizeL st.deleted ≤ fuel) (h : readElem env fuel st n = .ok (r, st')) :
+    xmlSizeL st'.deleted ≤ xmlSize n + xmlSizeL st.deleted :=
+  (c05_readElem_nofuelA env fuel st n hf).ok _ h
+
+/-- the same for a list of nodes from any state … -/
+theorem C05_fuel_enough_readAll_all (env : REnv) (fuel : Nat) (st : RState) (ns : List XmlNode) (e : Err)
+    (hf : xmlSizeL ns + xmlSizeL st.deleted ≤ fuel) (h : readAll env fuel st ns = .error e) : e ≠ .fuel :=
+  (c05_readAllWith_nofuelA _ fuel (c05_readElem_nofuelA env fuel) ns st hf).err e h
+
+/-- … in particular for a body read from the fresh state -/
+theorem C05_fuel_enough_readAll_fresh (env : REnv) (fuel : Nat) (ns : List XmlNode) (e : Err)
+    (hf : xmlSizeL ns ≤ fuel) (h : readAll env fuel {} ns = .error e) : e ≠ .fuel :=
+  C05_fuel_enough_readAll_all env fuel {} ns e (by simpa [xmlSizeL] using hf) h
+
+/-! ### balanced complex fields, in reading order -/
+
+/-- BALANCED FIELDS.  `c05_rdepth fuel (d, deferred) n` computes, IN READING ORDER (the children of a
+    paragraph with a deleted paragraph mark are deferred to the next paragraph without one), the pair (depth of
+    the complex-field stack, deferred nodes) after reading `n`; `none` = a `w:fldChar` end/separate meets the
+    empty stack.  For EVERY statically well-formed tree, from EVERY state whose deferred content is
+    statically well-formed: if it does not underflow, reading cannot fail with `IndexError` — the only
+    failure left is the model's fuel — and on success the stack depth and the deferred nodes are exactly the
+    computed ones. -/
+theorem C05_balanced_no_index (env : REnv) (hl : c05_linksAcyclic env = true) (fuel : Nat) (st : RState)
+    (n : XmlNode) (s' : c05_DS) (hs : c05_static env n = true) (hd : c05_staticL env st.deleted = true)
+    (hb : c05_rdepth fuel (st.stack.length, st.deleted) n = some s') :
+    (∀ e, readElem env fuel st n = .error e → e = .fuel) ∧
+    (∀ r st', readElem env fuel st n = .ok (r, st') → st'.stack.length = s'.1 ∧ st'.deleted = s'.2) :=
+  ⟨((c05_readElem_rbal env (c05_numOk_of_acyclic env hl) fuel st n hs hd).h s' hb).err,
+   fun r st' h => ((c05_readElem_rbal env (c05_numOk_of_acyclic env hl) fuel st n hs hd).h s' hb).ok (r, st') h⟩
+
+/-- the same for a list of nodes, from any state -/
+theorem C05_balanced_no_index_readAll (env : REnv) (hl : c05_linksAcyclic env = true) (fuel : Nat) (st : RState)
+    (ns : List XmlNode) (s' : c05_DS) (hs : c05_staticL env ns = true) (hd : c05_staticL env st.deleted = true)
+    (hb : c05_rdepthL fuel (st.stack.length, st.deleted) ns = some s') :
+    (∀ e, readAll env fuel st ns = .error e → e = .fuel) ∧
+    (∀ r st', readAll env fuel st ns = .ok (r, st') → st'.stack.length = s'.1 ∧ st'.deleted = s'.2) :=
+  have hn := c05_numOk_of_acyclic env hl
+  have key := (c05_readAllWith_rbal env _ _ (c05_readElem_rbal env hn fuel) (c05_readElem_specG env hn fuel)
+    ns st hs hd).h s' hb
+  ⟨key.err, fun r st' h => key.ok (r, st') h⟩
+
+/-! ### reader totality -/
+
+/-- READER TOTALITY from any state: statically well-formed nodes and deferred content, balanced in reading
+    order from the state's stack depth, fuel at least the size of the nodes plus the deferred content ⟹ the
+    nodes are read WITHOUT ANY ERROR, and the final stack depth / deferred nodes are the computed ones. -/
+theorem C05_readAll_total_from (env : REnv) (hl : c05_linksAcyclic env = true) (fuel : Nat) (st : RState)
+    (ns : List XmlNode) (s' : c05_DS) (hs : c05_staticL env ns = true) (hd : c05_staticL env st.deleted = true)
+    (hb : c05_rdepthL fuel (st.stack.length, st.deleted) ns = some s')
+    (hf : xmlSizeL ns + xmlSizeL st.deleted ≤ fuel) :
+    ∃ r st', readAll env fuel st ns = .ok (r, st') ∧ st'.stack.length = s'.1 ∧ st'.deleted = s'.2 := by
+  obtain ⟨herr, hok⟩ := C05_balanced_no_index_readAll env hl fuel st ns s' hs hd hb
+  cases h : readAll env fuel st ns with
+  | ok r => exact ⟨r.1, r.2, rfl, hok r.1 r.2 h⟩
+  | error e => exact absurd (herr e h) (C05_fuel_enough_readAll_all env fuel st ns e hf h)
+
+/-- READER TOTALITY on the domain: a body (as `readPackage` reads the document body, the notes and the
+    comments: from the fresh state) that is statically well-formed (`c05_staticL`) and whose complex fields
+    are balanced in reading order (`c05_balanced`), in an environment with acyclic `w:numStyleLink` chains, is
+    read WITHOUT ANY ERROR with every fuel ≥ its size.  Deleted paragraph marks, `w:numStyleLink`s, dangling
+    style / numbering references, unknown elements are all allowed. -/
+theorem C05_readAll_total (env : REnv) (hl : c05_linksAcyclic env = true) (fuel : Nat)
+    (ns : List XmlNode) (hs : c05_staticL env ns = true) (hb : c05_balanced ns = true)
+    (hf : xmlSizeL ns ≤ fuel) : ∃ r, readAll env fuel {} ns = .ok r := by
+  unfold c05_balanced at hb
+  cases hb' : c05_rdepthL (xmlSizeL ns) (0, []) ns with
+  | none => rw [hb'] at hb; cases hb
+  | some s' =>
+    obtain ⟨r, st', h, _⟩ := C05_readAll_total_from env hl (xmlSizeL ns) {} ns s' hs rfl hb'
+      (by simp [xmlSizeL])
+    exact ⟨(r, st'), C05_fuel_mono_readAll env _ fuel hf {} ns _ h⟩
+
+/-! ### exactness: balanced in reading order is also NECESSARY -/
+
+/-- more fuel changes no definite outcome: a normal result, and also every error other than `.fuel`, is the
+    same at every larger fuel (strengthens `C05_fuel_mono_readAll`) -/
+theorem C05_fuel_mono_outcome (env : REnv) (f f' : Nat) (hf : f ≤ f') (st : RState) (ns : List XmlNode) :
+    (∀ r, readAll env f st ns = .ok r → readAll env f' st ns = .ok r) ∧
+    (∀ e, readAll env f st ns = .error e → e ≠ .fuel → readAll env f' st ns = .error e) :=
+  ⟨(c05_readAll_le2 env f f' hf st ns).ok, (c05_readAll_le2 env f f' hf st ns).err⟩
+
+/-- UNBALANCED ⟹ `IndexError`: statically well-formed nodes and deferred content, enough fuel, and the
+    reading-order depth function underflows ⟹ the reader fails with `pop()` on the empty field stack -/
+theorem C05_unbalanced_fails (env : REnv) (hl : c05_linksAcyclic env = true) (fuel : Nat) (st : RState)
+    (ns : List XmlNode) (hs : c05_staticL env ns = true) (hd : c05_staticL env st.deleted = true)
+    (hb : c05_rdepthL fuel (st.stack.length, st.deleted) ns = none)
+    (hf : xmlSizeL ns + xmlSizeL st.deleted ≤ fuel) : ∃ w, readAll env fuel st ns = .error (.index w) :=
+  c05_readAll_unbalanced env hl fuel st ns hs hd hb hf
+
+/-- READER TOTALITY, EXACTLY: a statically well-formed body, in an environment with acyclic links, is read
+    from the fresh state (with any fuel ≥ its size) IF AND ONLY IF its complex fields are balanced in reading
+    order — `c05_balanced` is not stronger than necessary. -/
+theorem C05_readAll_total_iff (env : REnv) (hl : c05_linksAcyclic env = true) (fuel : Nat)
+    (ns : List XmlNode) (hs : c05_staticL env ns = true) (hf : xmlSizeL ns ≤ fuel) :
+    (∃ r, readAll env fuel {} ns = .ok r) ↔ c05_balanced ns = true := by
+  constructor
+  · intro ⟨r, hr⟩
+    cases hb : c05_balanced ns with
+    | true => rfl
+    | false =>
+      have hnone : c05_rdepthL (xmlSizeL ns) (0, []) ns = none := by
+        unfold c05_balanced at hb
+        cases h : c05_rdepthL (xmlSizeL ns) (0, []) ns with
+        | none => rfl
+        | some s => rw [h] at hb; cases hb
+      obtain ⟨w, hw⟩ := c05_readAll_unbalanced env hl (xmlSizeL ns) {} ns hs rfl hnone (by simp [xmlSizeL])
+      have := (c05_readAll_le2 env _ fuel hf {} ns).err _ hw (by intro h; cases h)
+      rw [this] at hr; cases hr
+  · intro hb
+    exact C05_readAll_total env hl fuel ns hs hb hf
+
+/-! ### examples for the full reader theorems -/
+
+/-- a numbering part with a `w:numStyleLink` chain that resolves (numId 2 → abstractNum 1 → style "ListStyle"
+    → numId 1 → abstractNum 0 → level 0), one that dangles (numId 3 → abstractNum 2 → style "Nope") and a
+    num without abstractNum (numId 4) -/
+def c05_exampleNumbering : Numbering :=
+  { abstractNums := [(some S!"0", { levels := [(S!"0", ⟨S!"0", true, none⟩)], numStyleLink := none }),
+                     (some S!"1", { levels := [], numStyleLink := some S!"ListStyle" }),
+                     (some S!"2", { levels := [], numStyleLink := some S!"Nope" })],
+    nums := [(some S!"1", S!"0"), (some S!"2", S!"1"), (some S!"3", S!"2"), (some S!"4", S!"9")],
+    styles := { numbering := [(some S!"ListStyle", some S!"1")] } }
+
+def c05_exampleEnv2 : REnv :=
+  { numbering := c05_exampleNumbering, rels := [⟨S!"rId1", S!"http://example.com", S!"hyperlink"⟩] }
+
+/-- the same with the style pointing back to numId 2: a cycle -/
+def c05_exampleEnvCyclic : REnv :=
+  { numbering := { c05_exampleNumbering with styles := { numbering := [(some S!"ListStyle", some S!"2")] } } }
+
+example : c05_linksAcyclic c05_exampleEnv2 = true := by decide
+example : c05_noStyleLinks c05_exampleEnv2 = false := by decide
+example : findLevel c05_exampleNumbering (c05_linkFuel c05_exampleEnv2) (some S!"2") S!"0" = .ok (some ⟨S!"0", true⟩) := by
+  c05_kernel_rfl
+example : findLevel c05_exampleNumbering (c05_linkFuel c05_exampleEnv2) (some S!"3") S!"0" = .ok none := by c05_kernel_rfl
+example : c05_linksAcyclic c05_exampleEnvCyclic = false := by decide
+example : findLevel c05_exampleEnvCyclic.numbering (c05_linkFuel c05_exampleEnvCyclic) (some S!"2") S!"0" = .error .recursion := by
+  c05_kernel_rfl
+
+def c05_fld (ty : Str) : XmlNode := .elem S!"w:r" [] [.elem S!"w:fldChar" [(S!"w:fldCharType", ty)] []]
+def c05_delMark : XmlNode := .elem S!"w:pPr" [] [.elem S!"w:rPr" [] [.elem S!"w:del" [] []]]
+
+/-- a body with a DELETED PARAGRAPH MARK: the first paragraph (field `begin` + instruction) is deferred into
+    the second one (linked numbering 2/0, `separate` … `end`, a hyperlink) -/
+def c05_exampleBody : List XmlNode :=
+  [ .elem S!"w:p" [] [c05_delMark, c05_fld S!"begin",
+                      .elem S!"w:r" [] [.elem S!"w:instrText" [] [.text S!" HYPERLINK \"http://x\" "]]],
+    .elem S!"w:p" [] [
+      .elem S!"w:pPr" [] [.elem S!"w:numPr" [] [.elem S!"w:numId" [(S!"w:val", S!"2")] [],
+                                                .elem S!"w:ilvl" [(S!"w:val", S!"0")] []]],
+      c05_fld S!"separate", .elem S!"w:r" [] [.elem S!"w:t" [] [.text S!"x"]], c05_fld S!"end",
+      .elem S!"w:hyperlink" [(S!"r:id", S!"rId1")] [.elem S!"w:r" [] [.elem S!"w:t" [] [.text S!"y"]]]] ]
+
+example : c05_noDelL c05_exampleBody = false := by decide +kernel
+example : c05_staticL c05_exampleEnv2 c05_exampleBody = true := by decide
+example : c05_balanced c05_exampleBody = true := by decide +kernel
+example : xmlSizeL c05_exampleBody = 25 := by decide
+/-- … so `C05_readAll_total` applies; indeed: -/
+example : (readAll c05_exampleEnv2 25 {} c05_exampleBody).toBool = true := by decide +kernel
+/-- the hypotheses of `C05_readAll_total_from` / `C05_balanced_no_index_readAll` / `C05_fuel_enough_readAll_all`
+    from a state with one open field and a deferred run -/
+example : c05_rdepthL 10 (1, [c05_fld S!"separate"]) [.elem S!"w:p" [] [c05_fld S!"end"]] = some (0, []) := by
+  c05_kernel_rfl
+
+/-- the hypotheses of the single-node theorems (`C05_readElem_errors_acyclic`, `C05_fuel_enough_all`,
+    `C05_balanced_no_index`) on a non-trivial node and state: one field open, a `separate` run deferred -/
+def c05_exampleState : RState := { stack := [.begin []], deleted := [c05_fld S!"separate"] }
+
+example : c05_static c05_exampleEnv2 c05_exampleNode = true := by decide
+example : c05_staticL c05_exampleEnv2 c05_exampleState.deleted = true := by decide
+example : xmlSize c05_exampleNode + xmlSizeL c05_exampleState.deleted ≤ 30 := by decide
+example : c05_rdepth 30 (c05_exampleState.stack.length, c05_exampleState.deleted) c05_exampleNode = some (1, []) := by
+  c05_kernel_rfl
+example : (readElem c05_exampleEnv2 30 c05_exampleState c05_exampleNode).toBool = true := by decide +kernel
+
+/-- READING ORDER IS NOT DOCUMENT ORDER.  `begin` in a deleted paragraph, then `end` in a run outside any
+    paragraph: balanced in document order (`c05_depth … = some 0`), but the reader meets `end` first and pops
+    the empty stack.  The reading-order function sees it. -/
+def c05_exampleReorder : List XmlNode :=
+  [.elem S!"w:p" [] [c05_delMark, c05_fld S!"begin"], c05_fld S!"end", .elem S!"w:p" [] []]
+
+example : c05_depthAllWith (c05_depth 9) 0 c05_exampleReorder = some 0 := by decide +kernel
+example : c05_balanced c05_exampleReorder = false := by decide +kernel
+example : readAll {} 9 {} c05_exampleReorder = .error (.index S!"pop from empty list") := by c05_kernel_rfl
+/-- (these are the hypotheses of `C05_unbalanced_fails`: static, underflow, enough fuel) -/
+example : c05_staticL {} c05_exampleReorder = true := by decide
+example : (c05_rdepthL 9 (0, []) c05_exampleReorder).isNone = true := by decide +kernel
+example : xmlSizeL c05_exampleReorder + 0 ≤ 9 := by decide
+/-- conversely `end` in a deleted paragraph before the `begin`: unbalanced in document order, balanced in
+    reading order, and read without error -/
+def c05_exampleReorder2 : List XmlNode :=
+  [.elem S!"w:p" [] [c05_delMark, c05_fld S!"end"], c05_fld S!"begin", .elem S!"w:p" [] []]
+
+example : c05_depthAllWith (c05_depth 9) 0 c05_exampleReorder2 = none := by decide +kernel
+example : c05_balanced c05_exampleReorder2 = true := by decide +kernel
+example : (readAll {} 9 {} c05_exampleReorder2).toBool = true := by decide +kernel
+/-- with a cyclic `w:numStyleLink` chain the example body is NOT read, whatever the fuel bound says -/
+example : (readAll { c05_exampleEnv2 with numbering := c05_exampleEnvCyclic.numbering } 25 {} c05_exampleBody)
+    = .error .recursion := by c05_kernel_rfl
+/-- less fuel than the bound can fail: the bound is not vacuous -/
+example : readAll c05_exampleEnv2 3 {} c05_exampleBody = .error .fuel := by c05_kernel_rfl
+
+
+/-! ## The whole API on its domain
+
+`c05_inDomain p` (Proofs/C05_ApiTotal.lean) is a decidable predicate on the package; it is the conjunction
+of the clauses listed by `c05_clauses p` (`C05_inDomain_clauses`):
+
+1. every part that is PRESENT parses (`c05_view p ≠ none`; package and part relationships, content types,
+   styles, numbering, footnotes, endnotes, comments are optional, the main document with its `w:body` is not);
+2. the `w:numStyleLink` chains are acyclic (`c05_linksAcyclic`) — links may dangle;
+3. for the footnotes, the endnotes and the comments part: every note / comment element has a `w:id`, and
+   the children of all of them IN SEQUENCE (one body reader reads them all: fields and deferred paragraphs
+   carry over from one note to the next) are statically well-formed (`c05_staticL`) and balanced in reading
+   order (`c05_balanced`); the same for the children of `w:body`;
+4. every note reference, comment reference and embedded-image relationship anywhere in those four node lists
+   resolves: to a note / comment the package defines, resp. to a non-XML zip entry (`c05_xrefsL`);
+5. the embedded style map `mammoth/style-map`, if present, is UTF-8 text.
+
+Dangling style ids, numbering ids, numbering-style links, image-less drawings, unknown elements, unknown break
+types, absent optional parts, `w:val`-less toggles, absent property blocks, absent `mc:Fallback` are all
+INSIDE the domain (none of the clauses mentions them).  `c05_fuelBound p` is the size of the largest of the
+four node lists.  The result value is a `Str` and the messages are `List Str` (warnings) by construction. -/
+
+/-- `docx.read` returns a document for every readable package (clauses 1–3) and enough fuel -/
+theorem C05_readPackage_total (p : Package) (fuel : Nat) (h : c05_readable p = true)
+    (hf : c05_fuelBound p ≤ fuel) : ∃ dm, readPackage p fuel = .ok dm :=
+  c05_readPackage_total p fuel h hf
+
+/-- clause 1 is necessary: if some present part does not parse (or the main document / its body is missing),
+    `docx.read` fails whatever the fuel -/
+theorem C05_parts_must_parse (p : Package) (fuel : Nat) (h : c05_view p = none) :
+    ∃ e, readPackage p fuel = .error e :=
+  c05_view_none_fails p fuel h
+
+/-- when every present part parses, `docx.read` is the body reader run on the four node lists of the view -/
+theorem C05_readPackage_eq_view (p : Package) (v : c05_View) (fuel : Nat) (h : c05_view p = some v) :
+    readPackage p fuel = c05_readView v fuel :=
+  c05_readPackage_view p v fuel h
+
+/-- the reader does not invent references: on a package whose references resolve in the XML (clause 4), every
+    document `docx.read` returns satisfies the converter's precondition `c05_docOk` — for EVERY converter
+    configuration that uses the package's own archive (every style map, id prefix, image converter, …) -/
+theorem C05_read_document_refs (p : Package) (fuel : Nat) (doc : Document) (msgs : List Str) (cfg : Cfg)
+    (harch : cfg.archive = archiveBytes p) (h : c05_refsResolve p = true)
+    (hr : readPackage p fuel = .ok (doc, msgs)) : c05_docOk cfg doc = true :=
+  c05_readPackage_docOk p fuel doc msgs cfg harch h hr
+
+/-- THE API IS TOTAL ON ITS DOMAIN: for every package in the domain, every fuel ≥ the bound, and EVERY
+    combination of options `o` (custom style map, include default / embedded style map, id prefix,
+    ignore-empty-paragraphs, image converter, output format HTML or markdown), every base directory and
+    outside world, `convert_to_html` / `convert_to_markdown` (no `transform_document`) return normally. -/
+theorem C05_api_total (p : Package) (fuel : Nat) (base : Option Str) (world : Str → Option Bytes)
+    (o : Options) (h : c05_inDomain p = true) (hf : c05_fuelBound p ≤ fuel) :
+    ∃ out, apiConvert p fuel base world id o = .ok out :=
+  c05_apiConvert_total p fuel base world o h hf
+
+/-- in particular for both output formats -/
+theorem C05_api_total_html_markdown (p : Package) (fuel : Nat) (base : Option Str) (world : Str → Option Bytes)
+    (o : Options) (h : c05_inDomain p = true) (hf : c05_fuelBound p ≤ fuel) :
+    (∃ out, apiConvert p fuel base world id { o with format := .html } = .ok out) ∧
+    (∃ out, apiConvert p fuel base world id { o with format := .markdown } = .ok out) :=
+  ⟨c05_apiConvert_total p fuel base world _ h hf, c05_apiConvert_total p fuel base world _ h hf⟩
+
+/-- with a `transform_document` function: the API returns normally whenever the package was read, its
+    embedded style map is fine, and the references of the TRANSFORMED document resolve within that document
+    and the package's zip entries (`c05_docSelfOk`; an arbitrary transformation can of course introduce
+    dangling references, so some hypothesis on its result is needed) -/
+theorem C05_api_total_transform (p : Package) (fuel : Nat) (base : Option Str) (world : Str → Option Bytes)
+    (transform : Document → Document) (o : Options) (doc : Document) (msgs : List Str)
+    (hs : c05_styleMapOk p = true) (hr : readPackage p fuel = .ok (doc, msgs))
+    (hd : c05_docSelfOk ((archiveBytes p).map (·.1)) (transform doc) = true) :
+    ∃ out, apiConvert p fuel base world transform o = .ok out :=
+  c05_apiConvert_total_transform p fuel base world transform o doc msgs hs hr hd
+
+/-- `extract_raw_text` returns normally on every readable package (clauses 1–3 suffice: the raw-text
+    extractor follows no references and does not read the embedded style map) -/
+theorem C05_rawText_total (p : Package) (fuel : Nat) (h : c05_readable p = true)
+    (hf : c05_fuelBound p ≤ fuel) : ∃ out, apiRawText p fuel = .ok out :=
+  c05_apiRawText_total p fuel h hf
+
+/-- the domain is exactly the conjunction of the clauses listed by `c05_clauses` -/
+theorem C05_inDomain_clauses (p : Package) : c05_inDomain p = (c05_clauses p).all id :=
+  c05_inDomain_eq_clauses p
+
+/-! ### examples for the API theorems -/
+
+/-- the example package (Proofs/C05_Example.lean: deleted paragraph mark with a complex field running into
+    the next paragraph, `w:numStyleLink`, dangling paragraph style, footnote, comment, embedded image,
+    hyperlink, no content-types and no endnotes part) is in the domain, its fuel bound is 40 … -/
+example : c05_inDomain c05_exPackage = true := by decide +kernel
+example : c05_fuelBound c05_exPackage = 40 := by decide +kernel
+example : c05_clauses c05_exPackage =
+    [true, true, true, true, true, true, true, true, true, true, true, true, true, true, true, true, true, true] := by
+  decide +kernel
+/-- … and indeed HTML, markdown and raw text are produced (with a `comment-reference` mapping in force) -/
+example : (apiConvert c05_exPackage 40 none (fun _ => none) id c05_exOptions).toBool = true := by decide +kernel
+example : (apiConvert c05_exPackage 40 none (fun _ => none) id { c05_exOptions with format := .markdown }).toBool
+    = true := by decide +kernel
+example : (apiRawText c05_exPackage 40).toBool = true := by decide +kernel
+
+/-- the hypotheses of `C05_readPackage_total` / `C05_rawText_total`, `C05_readPackage_eq_view`,
+    `C05_read_document_refs` on the example; of `C05_parts_must_parse` on the variant with an unparsable part -/
+example : c05_readable c05_exPackage = true := by decide +kernel
+example : (c05_view c05_exPackage).isSome = true := by decide +kernel
+example : c05_refsResolve c05_exPackage = true ∧ (readPackage c05_exPackage 40).toBool = true := by decide +kernel
+example : (c05_view c05_exBadParse).isNone = true := by decide +kernel
+
+/-- the hypotheses of `C05_api_total_transform`, with a transformation that appends a paragraph -/
+def c05_exTransform (d : Document) : Document :=
+  { d with children := d.children ++ [.paragraph {} [.run {} [.text S!"appended", .noteRef S!"footnote" S!"1"]]] }
+
+example : c05_styleMapOk c05_exPackage = true := by decide +kernel
+example : (match readPackage c05_exPackage 40 with
+    | .ok (doc, _) => c05_docSelfOk ((archiveBytes c05_exPackage).map (·.1)) (c05_exTransform doc)
+    | .error _ => false) = true := by decide +kernel
+example : (apiConvert c05_exPackage 40 none (fun _ => none) c05_exTransform c05_exOptions).toBool = true := by
+  decide +kernel
+
+/-! Each clause is needed: a variant of the example that violates ONE clause (see `c05_clauses` for which)
+    makes the model fail. -/
+
+/-- 1. a present part that does not parse (the main document's relationships part is not XML) -/
+example : c05_clauses c05_exBadParse = [false] := by decide +kernel
+example : (readPackage c05_exBadParse 40).toBool = false := by decide +kernel
+/-- 2. cyclic `w:numStyleLink` chain: `RecursionError` -/
+example : c05_clauses c05_exCyclic =
+    [true, false, true, true, true, true, true, true, true, true, true, true, true, true, true, true, true, true] := by
+  decide +kernel
+example : readPackage c05_exCyclic 40 = .error .recursion := by c05_kernel_rfl
+/-- 3a. a note element without `w:id`: `KeyError` (the reference to it then dangles as well) -/
+example : c05_clauses c05_exNoteNoId =
+    [true, true, false, true, true, true, true, true, true, true, true, true, true, true, true, true, false, true] := by
+  decide +kernel
+example : readPackage c05_exNoteNoId 40 = .error (.key S!"w:id") := by c05_kernel_rfl
+/-- 3b. not statically well-formed (undefined relationship id on an `a:blip`): `KeyError` -/
+example : c05_clauses c05_exNotStatic =
+    [true, true, true, true, true, true, true, true, true, true, true, false, true, true, true, true, true, true] := by
+  decide +kernel
+example : readPackage c05_exNotStatic 40 = .error (.key S!"rId99") := by c05_kernel_rfl
+/-- 3c. unbalanced complex field (here: in the footnotes part): `IndexError` -/
+example : c05_clauses c05_exUnbalanced =
+    [true, true, true, true, false, true, true, true, true, true, true, true, true, true, true, true, true, true] := by
+  decide +kernel
+example : readPackage c05_exUnbalanced 40 = .error (.index S!"pop from empty list") := by c05_kernel_rfl
+/-- 4a. dangling footnote reference: the package is read, the converter raises `KeyError` -/
+example : c05_clauses c05_exDanglingNote =
+    [true, true, true, true, true, true, true, true, true, true, true, true, true, true, true, true, false, true] := by
+  decide +kernel
+example : (readPackage c05_exDanglingNote 40).toBool = true ∧
+    (apiConvert c05_exDanglingNote 40 none (fun _ => none) id c05_exOptions).toBool = false := by decide +kernel
+/-- 4b. dangling comment reference (with a `comment-reference` mapping) -/
+example : c05_clauses c05_exDanglingComment =
+    [true, true, true, true, true, true, true, true, true, true, true, true, true, true, true, true, false, true] := by
+  decide +kernel
+example : (readPackage c05_exDanglingComment 40).toBool = true ∧
+    (apiConvert c05_exDanglingComment 40 none (fun _ => none) id c05_exOptions).toBool = false := by decide +kernel
+/-- 4c. embedded image whose zip entry is missing (with the default image converter) -/
+example : c05_clauses c05_exMissingImage =
+    [true, true, true, true, true, true, true, true, true, true, true, true, true, true, true, true, false, true] := by
+  decide +kernel
+example : (readPackage c05_exMissingImage 40).toBool = true ∧
+    (apiConvert c05_exMissingImage 40 none (fun _ => none) id c05_exOptions).toBool = false := by decide +kernel
+/-- 5. embedded style map that is not UTF-8: `UnicodeDecodeError` -/
+example : c05_clauses c05_exBadStyleMap =
+    [true, true, true, true, true, true, true, true, true, true, true, true, true, true, true, true, true, false] := by
+  decide +kernel
+example : (apiConvert c05_exBadStyleMap 40 none (fun _ => none) id c05_exOptions).toBool = false := by decide +kernel
+
 
 end Mammoth
